@@ -36,9 +36,11 @@ def _has_logic(body):
     return False
 
 
-def inlined(prog, body, extra_opaque=(), max_callee_blocks=220):
+def inlined(prog, body, extra_opaque=(), max_callee_blocks=220, sinks=None):
+    srx = re.compile(sinks) if sinks else None
+
     def only(key):
-        if DEFAULT_OPAQUE.search(key) or key in extra_opaque:
+        if DEFAULT_OPAQUE.search(key) or key in extra_opaque or (srx is not None and srx.search(key)):
             return False
         c = prog.by_name.get(key)
         if not c or len(c) != 1:
@@ -48,9 +50,12 @@ def inlined(prog, body, extra_opaque=(), max_callee_blocks=220):
     return inline(prog, body, max_depth=5, max_blocks=2500, only=only)
 
 
-def compute(prog, name, extra_opaque=(), effects=False, sinks=None, closures=False):
-    b = inlined(prog, prog.body(name), extra_opaque)
-    ex = Exits(prog, b, effects=effects, sinks=sinks, closures=closures).census()
+def compute(prog, name, extra_opaque=(), effects=False, sinks=None, closures=False, guarded=False):
+    b = inlined(prog, prog.body(name), extra_opaque, sinks=sinks)
+    ex = Exits(prog, b, effects=effects, sinks=sinks, closures=closures, guarded=guarded).census()
+    if guarded:
+        # a handler is held only to the guards of its sinks: its own return values (statuses) are not part of the reference
+        ex = [e for e in ex if e['cls'] == 'sink']
     out = []
     for e in ex:
         out.append({'cls': e['cls'], 'label': e['label'], 'trigger': e['trigger'], 'atoms': e['atoms'], 'full': e['full'], 'span': str(e['span'])})
@@ -87,6 +92,27 @@ def compare(reviewed, actual):
             detail = {} if ok else {'problem': 'returned expression or its conditions changed', 'reviewed': short(r['label'], 300),
                                     'now': [short(a['label'], 300) for a in actual if a['cls'] == 'exact'][:4]}
             yield ok, 'value kept', '%s when %s' % (short(r['label'], 90), short(' & '.join(r['trigger']), 110)), detail
+    rsink = [r for r in reviewed if r['cls'] == 'sink']
+    for r in rsink:
+        ok = any(a['cls'] == 'sink' and a['label'] == r['label'] for a in actual)
+        yield ok, 'effect kept', short(r['label'], 200), ({} if ok else {'problem': 'the reviewed state-changing call (with these arguments) is no longer made', 'now': [short(a['label'], 200) for a in actual if a['cls'] == 'sink'][:6]})
+    for a in actual:
+        if a['cls'] != 'sink':
+            continue
+        best, ok, known = None, False, False
+        for r in rsink:
+            if r['label'] != a['label']:
+                continue
+            known = True
+            miss = sorted(set(r['full']) - set(a['full']))
+            if not miss:
+                ok = True
+                break
+            if best is None or len(miss) < len(best):
+                best = miss
+        detail = {} if ok else ({'problem': 'the state-changing call no longer requires', 'missing_conditions': [short(x, 260) for x in (best or [])[:6]]} if known
+                                else {'problem': 'unreviewed state-changing call (new call site or different arguments)'})
+        yield ok, 'effect guarded', short(a['label'], 200), detail
     racc = [r for r in reviewed if r['cls'] == 'accept']
     for a in actual:
         if a['cls'] == 'accept':
@@ -121,7 +147,7 @@ def check(ctx, rule, name):
         ctx.ob(rule, name, 'the reviewed checker function is still present', False, problem='function not found in the analysed crate (removed or renamed)')
         return []
     ctx.fn(ctx.prog.body(name))
-    actual, inl = compute(ctx.prog, name, tuple(ent.get('opaque', ())), bool(ent.get('effects')), ent.get('sinks'), bool(ent.get('closures')))
+    actual, inl = compute(ctx.prog, name, tuple(ent.get('opaque', ())), bool(ent.get('effects')), ent.get('sinks'), bool(ent.get('closures')), bool(ent.get('guarded')))
     for g in set(inl):
         ctx.functions.add(g)
     n = 0
